@@ -17,6 +17,9 @@ Record run := {
   r_errs : list (list bool);            (* per thread per op: returned an error *)
   r_feeds : list (lock * list marker);  (* final change feed of each dataset (one marker per entry) *)
   r_snaps : list (lock * N);            (* lengths of the whole-feed snapshots concurrent readers saw *)
+  r_times : list (lock * list N);       (* per dataset: rank of the recorded time (txnTime) of each feed entry *)
+  r_lookups : list (marker * marker);   (* per dataset and entity id: marker of its last feed entry, marker the scoped
+                                           single-entity lookup returns after the run *)
   r_bad : N                             (* anomalies counted by the driver: torn merged lookups, snapshots that are
                                            not a prefix of the final feed, lock events of unknown goroutines *)
 }.
@@ -54,10 +57,21 @@ Fixpoint lookup_feed (d : lock) (fs : list (lock * list marker)) : list marker :
 Definition snaps_ok (fs : list (lock * list marker)) (sn : list (lock * N)) : bool :=
   forallb (fun s => boundary (lookup_feed (fst s) fs) (N.to_nat (snd s))) sn.
 
+(** txnTime is drawn inside the critical section, so along every change feed the recorded
+    times never go back, and the entity lookup (greatest txnTime) is the last feed entry *)
+Fixpoint nondecb (l : list N) : bool :=
+  match l with
+  | x :: ((y :: _) as r) => N.leb x y && nondecb r
+  | _ => true
+  end.
+Definition times_ok (ts : list (lock * list N)) : bool := forallb (fun p => nondecb (snd p)) ts.
+Definition lookups_ok (ls : list (marker * marker)) : bool := forallb (fun p => N.eqb (fst p) (snd p)) ls.
+
 (** an operation returns an error only if it is refused *)
 Definition op_err (v : variant) (o : op) : bool :=
   match o with
   | OTxn ks _ _ => match v_core v with CoreRejected => memb LCore (part_keys ks) | CoreLocks => false end
+  | OTxnFail _ => true
   | ORename _ RNoop | ORename _ RClash => true
   | ODelete _ false => true
   | _ => false
@@ -75,6 +89,7 @@ Definition agree_run (v : variant) (forced : bool) (r : run) : bool :=
       ok &&
       match r_outcome r with
       | 0%N => terminal c' && feeds_match c' (r_feeds r) && snaps_ok (r_feeds r) (r_snaps r) && N.eqb (r_bad r) 0
+               && times_ok (r_times r) && lookups_ok (r_lookups r)
       | 1%N => stuck c'
       | _ => false
       end)
@@ -148,6 +163,7 @@ Fixpoint forallb2 {A B} (f : A -> B -> bool) (l1 : list A) (l2 : list B) : bool 
 Definition spec_err (o : op) (e : bool) : bool :=
   match o with
   | OTxn ks _ _ => if memb LCore (part_keys ks) then true else negb e
+  | OTxnFail _ => e
   | ORename _ RNoop | ORename _ RClash => e
   | ODelete _ false => e
   | _ => negb e
@@ -158,7 +174,8 @@ Definition spec_run (r : run) : bool :=
   && forallb2 (forallb2 spec_err) (r_ops r) (r_errs r)
   && forallb (feed_spec (r_ops r) (r_errs r)) (r_feeds r)
   && snaps_ok (r_feeds r) (r_snaps r)
-  && N.eqb (r_bad r) 0.
+  && N.eqb (r_bad r) 0
+  && times_ok (r_times r) && lookups_ok (r_lookups r).
 Definition spec_ok (c : tcase) : bool := forallb spec_run (c_runs c).
 
 Definition v_sorted_locks : variant := v_order_sorted_core_locks.
